@@ -642,7 +642,12 @@ func runC19(c *Ctx) {
 		}
 	}
 
-	// ---- (mask) InspectMask on golden measurements ----
+	// ---- (cliout) the shipped command: inspect payload|signature|mask --path … --bytesform bin --out FILE ----
+	// through the real cobra commands and the real file back end (cmd.OSIO): the file an external tool
+	// (openssl) reads must hold exactly the field bytes, whether FILE is new, or existed with longer,
+	// equal or shorter contents.
+	c19CliOut(c, r)
+
 	golden := roots[2]
 	nm := c.N(600, 20000)
 	for i := 0; i < nm; i++ {
